@@ -45,22 +45,53 @@ def configs(tier, seed, salt=0):
                      "ifeats": [rng.sample(ALLF, rng.randint(0, 6)) for _ in range(n)],
                      "igrans": [rng.choice(grans) for _ in range(n)]})
     cfgs.append({"aw": 0, "dw": 8, "agran": 8, "n": 2, "afeat": [], "ifeats": [[], ["stall"]], "igrans": [8, 8]})
+    # the same components reached by other legal routes: features spelled as Feature members; refused add() calls in between
+    for k, c in enumerate(cfgs):
+        if k % 3 == 1:
+            c["enum_features"] = True
+        if k % 4 == 2:
+            c["refused_before"] = sorted({0, c["n"]} if k % 8 == 2 else {c["n"] // 2})
     return cfgs
+
+
+REFUSED = []      # interfaces whose add() was refused in the last build(): their signals stay free inputs of the netlist
 
 
 def build(cfg, upto=None):
     from amaranth_soc import wishbone
     intrs = []
+    del REFUSED[:]
 
     def add(arb, i):
         it = wishbone.Interface(addr_width=cfg["aw"], data_width=cfg["dw"], granularity=cfg["igrans"][i],
                                 features=cfg["ifeats"][i], path=(f"i{i}",))
         arb.add(it)
         intrs.append(it)
+    def refused_add(arb, k):
+        """an add() the arbiter must refuse (other address width, or an initiator without the arbiter's err/rty outputs);
+        afterwards the arbiter must behave as if the call had never been made"""
+        feats = [f for f in cfg["afeat"] if f not in ("err", "rty")]
+        if k % 2 == 0 and any(f in cfg["afeat"] for f in ("err", "rty")):
+            it = wishbone.Interface(addr_width=cfg["aw"], data_width=cfg["dw"], granularity=cfg["agran"], features=feats, path=(f"refused{k}",))
+        else:
+            it = wishbone.Interface(addr_width=cfg["aw"] + 1, data_width=cfg["dw"], granularity=cfg["agran"], features=cfg["afeat"], path=(f"refused{k}",))
+        REFUSED.append(it)
+        try:
+            arb.add(it)
+        except (ValueError, TypeError):
+            pass
     try:
-        arb = wishbone.Arbiter(addr_width=cfg["aw"], data_width=cfg["dw"], granularity=cfg["agran"], features=cfg["afeat"])
+        afeat = cfg["afeat"]
+        if cfg.get("enum_features"):
+            # the documented spelling with Feature members instead of strings: the same component must result
+            afeat = {wishbone.Feature(f) for f in afeat}
+        arb = wishbone.Arbiter(addr_width=cfg["aw"], data_width=cfg["dw"], granularity=cfg["agran"], features=afeat)
         for i in range(cfg["n"] if upto is None else upto):
+            if i in cfg.get("refused_before", ()):
+                refused_add(arb, i)
             add(arb, i)
+        if cfg["n"] in cfg.get("refused_before", ()) and upto is None:
+            refused_add(arb, cfg["n"])
     except (ValueError, TypeError) as e:
         raise Refused(str(e))
     if upto is not None:
@@ -79,7 +110,7 @@ def check_config(ctx, cfg, which):
     arb, intrs = build(cfg)
     n = len(intrs)
     probes = []
-    for it in intrs:
+    for it in intrs + REFUSED:         # a refused interface is somebody else's: whatever it carries must not matter to the arbiter
         probes += sigs_of(it)
     nl = ctx.netlist(arb, probes=probes)
     ctx.nontrivial = n >= 2
